@@ -81,7 +81,7 @@ def job_panics(job):
     else:
         raise Inconclusive('unknown job kind %s' % kind)
     pan = [('%s@%s: %s' % (o.kind, o.where, o.msg[:50]), T.implies(T.and_many(list(o.pc)), o.cond)) for o in I.obligations]
-    solver = worker_solver(180000 if kind == 'build_real_score' else 60000, 'z3-new', lut_mode='ite', logic='QF_BV')
+    solver = worker_solver(240000 if kind == 'build_real_score' else 60000, 'z3-new', lut_mode='ite', logic='QF_BV')
     for a_ in asm:
         solver.assume(a_)
     syn, nsolv, fails, unk = discharge(solver, pan, eval_search=0 if asm else 6, chunk=4 if kind == 'build_real_score' else 16)
